@@ -8,11 +8,14 @@ import ExoVerif.Props.C18Assets
 * F-18e as theorems about the model: `C18_feedistribution_loses_state` (after the round trip every collection other than the
   params is empty, for EVERY state) and `C18_feedistribution_roundtrip_iff` (the state is reproduced iff it held nothing
   but params).
-* x/oracle: `C18_roundtrip_oracle_persisted` — params, prices with NextRoundID, validator update block, both indexes, recent
-  msgs / params and the staker infos are reproduced; `C18_oracle_loses_nonces` (F-18f): the nonces are empty after the round
-  trip for every state; `C18_oracle_stakerlist_key_doubled` (F-18l, NEW, reproduced on the real app by directed scenarios
-  D6 / D7): every staker list comes back under its key with the store prefix prepended once more, so
-  `C18_oracle_full_fails`.
+* x/oracle: `C18_roundtrip_oracle` — for the code as it is (after the F-18l repair) every persisted collection except the
+  nonces is reproduced: params, prices with NextRoundID, validator update block, both indexes, recent msgs / params, staker
+  infos and staker lists; `C18_oracle_loses_nonces` (F-18f, open): the nonces are empty after the round trip for every state.
+  Regression (F-18l, `preFixOracleCfg`): `C18_regression_F18l_key_doubled` — every staker list came back under its key
+  with the store prefix prepended once more —, `C18_regression_F18l_full_fails`.
+* native restaking writer (F-18m / F-18n, repaired): `C18_oracle_nst_remove_keeps_valid` — removing a staker keeps the
+  asset's list / infos pair acceptable to Validate; `C18_regression_F18m` / `C18_regression_F18n` keep the pre-repair
+  counter-examples (empty list left behind; stale StakerIndex). Directed scenarios D6 / D7 replay all three.
 -/
 namespace ExoVerif.Genesis
 open ExoVerif
@@ -194,27 +197,39 @@ theorem C18_roundtrip_oracle_persisted (cfg : OracleCfg) (s : Oracle) (h : Oracl
 /-- **F-18f.** The validator nonces are in no genesis field: empty after the round trip, for every state. -/
 theorem C18_oracle_loses_nonces (cfg : OracleCfg) (s : Oracle) : (roundtripOracle cfg s).nonces = [] := rfl
 
-/-- **F-18l.** For every state, the code as it is re-imports each staker list under its key with the store prefix
-    prepended once more (GetAllStakerListAssets exports the full store key as asset id, SetStakerList adds the prefix
-    again): GetStakerList(assetID) finds nothing on the re-imported chain. -/
-theorem C18_oracle_stakerlist_key_doubled (s : Oracle) (h : OracleInv s) :
-    (roundtripOracle codeOracleCfg s).stakerLists = s.stakerLists.map (fun p => (codeOracleCfg.listPrefix ++ p.1, p.2)) := by
-  have hnd : (KV.keys (s.stakerLists.map (fun p => (codeOracleCfg.listPrefix ++ p.1, p.2)))).Nodup := by
-    have : KV.keys (s.stakerLists.map (fun p => (codeOracleCfg.listPrefix ++ p.1, p.2))) =
-        (KV.keys s.stakerLists).map (fun k => codeOracleCfg.listPrefix ++ k) := by
+/-- what the round trip does to the staker lists, for every configuration: with `listKeyFull` every list comes back
+    under its key with the store prefix prepended once more -/
+theorem C18_roundtrip_oracle_stakerlists_actual (cfg : OracleCfg) (s : Oracle) (h : OracleInv s) :
+    (roundtripOracle cfg s).stakerLists =
+      s.stakerLists.map (fun p => (if cfg.listKeyFull then cfg.listPrefix ++ p.1 else p.1, p.2)) := by
+  have hnd : (KV.keys (s.stakerLists.map (fun p => (if cfg.listKeyFull then cfg.listPrefix ++ p.1 else p.1, p.2)))).Nodup := by
+    have : KV.keys (s.stakerLists.map (fun p => (if cfg.listKeyFull then cfg.listPrefix ++ p.1 else p.1, p.2))) =
+        (KV.keys s.stakerLists).map (fun k => if cfg.listKeyFull then cfg.listPrefix ++ k else k) := by
       simp [KV.keys, List.map_map, Function.comp_def]
     rw [this]
     unfold List.Nodup
     rw [List.pairwise_map]
-    exact List.Pairwise.imp (fun hab e => hab ((String.append_right_inj _).mp e)) h.listsND
+    refine List.Pairwise.imp (fun hab e => hab ?_) h.listsND
+    by_cases hf : cfg.listKeyFull = true
+    · simp only [hf, if_true] at e
+      exact (String.append_right_inj _).mp e
+    · simpa [hf] using e
   have := kv_rebuild_id _ hnd
-  simpa [roundtripOracle, initOracle, exportOracle, codeOracleCfg] using this
-
-/-- with an exporter that returns the asset id (iterating a prefix store), the staker lists are reproduced -/
-theorem C18_oracle_stakerlists_if_prefix_store (s : Oracle) (h : OracleInv s) :
-    (roundtripOracle ⟨codeOracleCfg.listPrefix, false⟩ s).stakerLists = s.stakerLists := by
-  have := kv_rebuild_id s.stakerLists h.listsND
   simpa [roundtripOracle, initOracle, exportOracle] using this
+
+/-- Repaired code (F-18l): the staker lists are reproduced -/
+theorem C18_roundtrip_oracle_stakerlists (s : Oracle) (h : OracleInv s) :
+    (roundtripOracle codeOracleCfg s).stakerLists = s.stakerLists := by
+  rw [C18_roundtrip_oracle_stakerlists_actual codeOracleCfg s h]
+  simp [codeOracleCfg]
+
+/-- Pre-repair regression (F-18l): for every state each staker list was re-imported under its key with the store
+    prefix prepended once more (GetAllStakerListAssets exported the full store key as asset id, SetStakerList adds the
+    prefix again): GetStakerList(assetID) found nothing on the re-imported chain. -/
+theorem C18_regression_F18l_key_doubled (s : Oracle) (h : OracleInv s) :
+    (roundtripOracle preFixOracleCfg s).stakerLists = s.stakerLists.map (fun p => (preFixOracleCfg.listPrefix ++ p.1, p.2)) := by
+  rw [C18_roundtrip_oracle_stakerlists_actual preFixOracleCfg s h]
+  simp [preFixOracleCfg]
 
 /-- two native-restaking stakers, one price round, one pending nonce -/
 def oracleWitness : Oracle :=
@@ -230,32 +245,111 @@ theorem oracleWitness_inv : OracleInv oracleWitness := by
   subst hp
   refine ⟨by decide, by decide, by decide⟩
 
-/-- C18 for the persisted oracle state (nonces aside) -/
-def C18_oracle_full : Prop :=
-  ∀ s : Oracle, OracleInv s → { roundtripOracle codeOracleCfg s with nonces := s.nonces } = s
+/-- C18 for the persisted oracle state (nonces aside), for an exporter configuration -/
+def C18_oracle_full (cfg : OracleCfg) : Prop :=
+  ∀ s : Oracle, OracleInv s → { roundtripOracle cfg s with nonces := s.nonces } = s
 
-theorem C18_oracle_full_fails : ¬ C18_oracle_full := by
+/-- **x/oracle round trip, code as it is.** Every persisted collection except the nonces is reproduced exactly. -/
+theorem C18_roundtrip_oracle : C18_oracle_full codeOracleCfg := by
+  intro s h
+  obtain ⟨h1, h2, h3, h4, h5, h6, h7, h8⟩ := C18_roundtrip_oracle_persisted codeOracleCfg s h
+  have h9 := C18_roundtrip_oracle_stakerlists s h
+  cases s with
+  | mk a b c d e f g i j k =>
+    simp only at h1 h2 h3 h4 h5 h6 h7 h8 h9
+    simp only [Oracle.mk.injEq]
+    exact ⟨h1, h2, h3, h4, h5, h6, h7, h8, h9, trivial⟩
+
+/-- Pre-repair regression (F-18l): the statement was refuted by any state with a native-restaking staker list -/
+theorem C18_regression_F18l_full_fails : ¬ C18_oracle_full preFixOracleCfg := by
   intro h
   have := congrArg Oracle.stakerLists (h oracleWitness oracleWitness_inv)
   revert this
   decide
 
-/-- what holds for the code as it is: a state without native-restaking staker lists is reproduced (nonces aside) -/
-theorem C18_roundtrip_oracle_partial (s : Oracle) (h : OracleInv s) (hl : s.stakerLists = []) :
-    { roundtripOracle codeOracleCfg s with nonces := s.nonces } = s := by
-  obtain ⟨h1, h2, h3, h4, h5, h6, h7, h8⟩ := C18_roundtrip_oracle_persisted codeOracleCfg s h
-  have h9 := C18_oracle_stakerlist_key_doubled s h
-  rw [hl] at h9
-  cases s with
-  | mk a b c d e f g i j k =>
-    simp only at h1 h2 h3 h4 h5 h6 h7 h8 h9 hl
-    subst hl
-    simp only [Oracle.mk.injEq]
-    exact ⟨h1, h2, h3, h4, h5, h6, h7, h8, h9, trivial⟩
+/-! ## native restaking: removing a staker keeps the export valid -/
+
+theorem indexedFrom_renumber (k : Int) (l : List (String × Int)) : indexedFrom k (renumber k l) = true := by
+  induction l generalizing k with
+  | nil => rfl
+  | cons p r ih => obtain ⟨a, i⟩ := p; simp [renumber, indexedFrom, ih]
+
+theorem renumber_keys (k : Int) (l : List (String × Int)) : (renumber k l).map (·.1) = l.map (·.1) := by
+  induction l generalizing k with
+  | nil => rfl
+  | cons p r ih => obtain ⟨a, i⟩ := p; simp [renumber, ih]
+
+theorem indexedFrom_remove (addr : String) (k : Int) (l : List (String × Int)) (h : indexedFrom k l = true) :
+    indexedFrom k (removeFrom true addr k l) = true := by
+  induction l generalizing k with
+  | nil => rfl
+  | cons p r ih =>
+    obtain ⟨a, i⟩ := p
+    simp only [indexedFrom, Bool.and_eq_true, decide_eq_true_eq] at h
+    unfold removeFrom
+    by_cases e : a = addr
+    · simp only [e, if_true]
+      exact indexedFrom_renumber k r
+    · simp only [e, if_false, indexedFrom, Bool.and_eq_true, decide_eq_true_eq]
+      exact ⟨h.1, ih (k + 1) h.2⟩
+
+theorem remove_keys_sublist (shift : Bool) (addr : String) (k : Int) (l : List (String × Int)) :
+    ((removeFrom shift addr k l).map (·.1)).Sublist (l.map (·.1)) := by
+  induction l generalizing k with
+  | nil => simp [removeFrom]
+  | cons p r ih =>
+    obtain ⟨a, i⟩ := p
+    unfold removeFrom
+    by_cases e : a = addr
+    · simp only [e, if_true, List.map_cons]
+      cases shift
+      · simp
+      · simp only [if_true, renumber_keys]
+        exact List.Sublist.cons _ (List.Sublist.refl _)
+    · simp only [e, if_false, List.map_cons]
+      exact (ih (k + 1)).cons_cons a
+
+/-- **Repaired code (F-18m, F-18n).** An asset whose staker list / staker infos pass the oracle's genesis validation
+    still passes it after UpdateNSTValidatorListForStaker removed a staker — the last one included. -/
+theorem C18_oracle_nst_remove_keeps_valid (s : Nst) (addr : String) (h : validateNst s = true) :
+    validateNst (removeStaker codeNstCfg s addr) = true := by
+  simp only [validateNst, Bool.and_eq_true, decide_eq_true_eq, beq_iff_eq] at h ⊢
+  obtain ⟨⟨h1, h2⟩, h3⟩ := h
+  refine ⟨⟨?_, ?_⟩, ?_⟩
+  · simp only [removeStaker, codeNstCfg, Bool.and_true]
+    by_cases he : (removeFrom true addr 0 s.stakers).isEmpty = true
+    · simp [he]
+    · simp only [he, Bool.false_eq_true, if_false, Bool.not_false]
+      rw [h1]
+      cases hs : s.stakers with
+      | nil => rw [hs] at he; simp [removeFrom] at he
+      | cons _ _ => rfl
+  · exact List.Nodup.sublist (remove_keys_sublist true addr 0 s.stakers) h2
+  · exact indexedFrom_remove addr 0 s.stakers h3
+
+def nstTwo : Nst := ⟨true, [("0xa", 0), ("0xb", 1)]⟩
+example : validateNst nstTwo = true := by decide
+example : removeStaker codeNstCfg nstTwo "0xa" = ⟨true, [("0xb", 0)]⟩ := by decide
+example : removeStaker codeNstCfg (removeStaker codeNstCfg nstTwo "0xa") "0xb" = ⟨false, []⟩ := by decide
+
+/-- Pre-repair regression (F-18n): after the first of two stakers left, the second one's stored StakerIndex was stale and
+    the export failed Validate ("has index 1, not match which from stakerList 0") -/
+theorem C18_regression_F18n : removeStaker ⟨true, false⟩ nstTwo "0xa" = ⟨true, [("0xb", 1)]⟩ ∧
+    validateNst (removeStaker ⟨true, false⟩ nstTwo "0xa") = false := by decide
+
+/-- Pre-repair regression (F-18m): after the last staker left, the empty list entry stayed and the export failed Validate
+    ("length not equal for stakerListAssets and stakerInfosAssets") -/
+theorem C18_regression_F18m : removeStaker ⟨false, true⟩ (removeStaker ⟨false, true⟩ nstTwo "0xa") "0xb" = ⟨true, []⟩ ∧
+    validateNst (removeStaker ⟨false, true⟩ (removeStaker ⟨false, true⟩ nstTwo "0xa") "0xb") = false := by decide
+
+/-- both, as the code was -/
+theorem C18_regression_F18mn : validateNst (removeStaker preFixNstCfg nstTwo "0xa") = false ∧
+    validateNst (removeStaker preFixNstCfg (removeStaker preFixNstCfg nstTwo "0xa") "0xb") = false := by decide
 
 example : (roundtripOracle codeOracleCfg oracleWitness).prices = oracleWitness.prices := by decide
 example : (roundtripOracle codeOracleCfg oracleWitness).stakerInfos = oracleWitness.stakerInfos := by decide
-example : (roundtripOracle codeOracleCfg oracleWitness).stakerLists =
+example : (roundtripOracle codeOracleCfg oracleWitness).stakerLists = oracleWitness.stakerLists := by decide
+example : (roundtripOracle preFixOracleCfg oracleWitness).stakerLists =
     [("NativeToken/stakerList/value/nst", ["0xa", "0xb"])] := by decide
 example : (roundtripOracle codeOracleCfg oracleWitness).nonces = [] := by decide
 
